@@ -1,0 +1,31 @@
+//go:build verif
+
+package local
+
+import (
+	"github.com/wrgl/wrgl/pkg/objects"
+	"github.com/wrgl/wrgl/pkg/ref"
+	refsql "github.com/wrgl/wrgl/pkg/ref/sql"
+)
+
+// VerifOpenObjectsStore, when set, replaces the Badger store opened by
+// RepoDir.OpenObjectsStore (simulation builds only).
+var VerifOpenObjectsStore func(wrglDir string) (objects.Store, bool)
+
+// VerifWrapRefStore, when set, wraps the SQL ref store returned by
+// RepoDir.OpenRefStore (simulation builds only).
+var VerifWrapRefStore func(wrglDir string, s ref.Store) ref.Store
+
+func verifObjectsStore(d *RepoDir) (objects.Store, bool) {
+	if VerifOpenObjectsStore == nil {
+		return nil, false
+	}
+	return VerifOpenObjectsStore(d.FullPath)
+}
+
+func verifRefStore(d *RepoDir) (ref.Store, bool) {
+	if VerifWrapRefStore == nil {
+		return nil, false
+	}
+	return VerifWrapRefStore(d.FullPath, refsql.NewStore(d.db)), true
+}
